@@ -102,7 +102,7 @@ def plan(tier: str) -> dict:
     for v in range(3, 14):
         floors[f"ir_version:{v}"] = 20 if quick else 800
     return {
-        "cases": 64000 if quick else 1000000,
+        "cases": 64000 if quick else 1600000,
         "shards": 16,
         "budget_s": 32 if quick else 440,
         "floors": floors,
